@@ -27,6 +27,21 @@ def run(ck):
     ck.rule("C16-O2", "DuplicateFilter: text equal to the remembered text -> false and nothing written; otherwise the text is remembered and true is returned; exact equality; initially empty")
     ck.rule("C16-O3", "RegExpFilter: returns m_regExp.match(message()).hasMatch() with default match options")
     ck.rule("C16-O4", "SeqNumberAttr: exactly one unit increment of the counter on every path of attributes(), and the counter value is the attribute published under the configured name")
+    ck.rule("C16-O5", "a pipeline sees a filter through Filter::process, which returns exactly filter(lmsg) for every message: no verdict override, and filter() runs for every message (the duplicate filter's memory depends on it)")
+    fp = F.fn("QtLogger::Filter::process")
+    ck.touch(fp)
+    rs = returns(fp)
+    g_ = Graph(fp)
+    fcalls = [n for n in fp.calls("QtLogger::Filter::filter") if n.get("virtual") and n.get("args") and is_ref_to(n["args"][0], fp.params[0]["decl"])]
+    exact = bool(rs) and all(skip_copies(deref_local(fp, r.get("e"))).get("id") in {c["id"] for c in fcalls} for r in rs)
+    always = bool(fcalls) and g_.must_pass(set(g_.sites_of_nodes(fcalls)))
+    if exact and always:
+        ck.ob("C16-O5", sitestr(fp, rs[0]), True, "Filter::process returns exactly filter(lmsg), evaluated on every path", key="Filter::process|return")
+    else:
+        mixed = any(any(x.get("id") in {c["id"] for c in fcalls} for x in walk(deref_local(fp, r.get("e")))) or const_int(r.get("e")) is not None for r in rs)
+        ck.ob("C16-O5", sitestr(fp, rs[0]) if rs else sitestr(fp), False if (mixed or not fcalls or not always) else None,
+              "Filter::process returns %s%s: the verdict of the built-in filters is overridden or filter() is not evaluated for every message (the duplicate filter then remembers a stale text)" %
+              ([describe(deref_local(fp, r.get("e")))[:80] for r in rs], "" if always else "; filter() is skipped on some path"), key="Filter::process|return")
     level(ck)
     duplicate(ck)
     regexp(ck)
